@@ -77,12 +77,32 @@ class ManagedRoles:
             raise Undecided('pool inner type %s not found' % self.INNER)
         ifields = inner['variants'][0]['fields']
         self.SEM = _one([x['name'] for x in ifields if x['ty'] == SEM_TY], 'Semaphore field of ' + self.INNER)
-        mtx = _one([x for x in ifields if x['ty'].startswith('std::sync::Mutex<')], 'Mutex field of ' + self.INNER)
+        mtxs = [x for x in ifields if x['ty'].startswith('std::sync::Mutex<')]
+        if len(mtxs) > 1:
+            # several mutexes: the slots are the one guarding a struct of this crate that holds the idle queue (a VecDeque)
+            def guards_queue(x):
+                a_ = c.adt(adt_of(inner_type_args(x['ty'], 'std::sync::Mutex')))
+                return a_ is not None and any(f_['ty'].startswith('std::collections::VecDeque<') for f_ in a_['variants'][0]['fields'])
+            mtxs = [x for x in mtxs if guards_queue(x)]
+        mtx = _one(mtxs, 'Mutex field of ' + self.INNER)
         self.SLOTS_FIELD = mtx['name']
         self.N_MUTEX = len([x for x in ifields if 'std::sync::Mutex' in x['parts']['adts']])
         self.SLOTS = adt_of(inner_type_args(mtx['ty'], 'std::sync::Mutex'))
-        self.USERS = _one([x['name'] for x in ifields if x['ty'].startswith('std::sync::atomic::Atomic')],
-                          'atomic counter field of ' + self.INNER)
+        atoms = [x['name'] for x in ifields if x['ty'].startswith('std::sync::atomic::Atomic')]
+        if len(atoms) > 1:
+            # several atomic counters: `users` is the one status() reads
+            from .analysis import sources as _src
+            stb = [b_ for b_ in prog.bodies.values() if strip_generics(b_.path) == 'deadpool::managed::Pool::status']
+            seen_ = set()
+            for b_ in stb:
+                an_ = prog.an(b_)
+                for blk in b_.blocks:
+                    t_ = blk.term
+                    if t_.kind == 'call' and not blk.cleanup and t_.args and any(n.endswith('::load') and 'atomic' in n for n in t_.callee_names()):
+                        seen_ |= {s_[1].split('.')[-1] for s_ in _src(an_, t_.args[0]) if s_[0] == 'field' and s_[1].startswith(self.INNER + '.')}
+            atoms = [a_ for a_ in atoms if a_ in seen_]
+        self.USERS = _one(atoms, 'atomic counter field of ' + self.INNER)
+        self.OTHER_ATOMICS = [x['name'] for x in ifields if x['ty'].startswith('std::sync::atomic::Atomic') and x['name'] != self.USERS]
         self.MANAGER_FIELD = _one([x['name'] for x in ifields if x['ty'] == 'M'], 'manager field of ' + self.INNER)
         self.HOOKS_FIELD = _one([x['name'] for x in ifields if 'deadpool::managed::hooks::Hooks' in x['parts']['adts']],
                                 'hooks field of ' + self.INNER)
